@@ -9,6 +9,7 @@ import (
 	"encoding/json"
 	"fmt"
 	"sort"
+	"strings"
 
 	"verifsim/internal/api"
 	"verifsim/internal/core"
@@ -122,7 +123,14 @@ func decodeCase(data json.RawMessage) (*core.Case, error) {
 		return nil, err
 	}
 	if p.Program == nil {
-		return nil, fmt.Errorf("payload has no program")
+		if len(p.Assembly) == 0 {
+			return nil, fmt.Errorf("payload has neither program nor assembly")
+		}
+		prog, err := isa.ParseText(strings.Join(p.Assembly, "\n"))
+		if err != nil {
+			return nil, err
+		}
+		p.Program = prog
 	}
 	if p.Program.Labels == nil {
 		p.Program.Labels = map[string]int{}
